@@ -22,6 +22,12 @@ CHECKS = {
             "boundary; verdict, result equality and isinstance compared with an oracle written from the constraint documentation; "
             "the int range grid ((gt|ge) x (lt|le) x bounds in [-3,3] x ints in [-6,6]) is enumerated completely on every run.",
             "Trusted: vf/constraints.py (documented senses; Fraction arithmetic, fixed-point digit strings, re with \\Z); unspecified zones are silent and counted.", "3/C02"),
+    "C03": ("round-trip property-based testing (Hypothesis): parse(parse(x)) == parse(x) over generated types incl. lax constraints, unions and data classes; strict-form check of lax outputs against independent constraint semantics",
+            "hypothesis",
+            "Exploration: generated types (constrained incl. lax, nested generics, logical combinations, data classes) x type-directed and hostile "
+            "inputs x conversion options x 6 entry points; every accepted result is parsed again and compared; a dedicated lax campaign aims "
+            "inputs beyond every lax bound (carries, non-multiples of both signs, over-long values, duplicates) and checks the strict form on exact domains.",
+            "Trusted: vf/oracle.py:equal (True/1 and False/0 count as equal), vf/constraints.py for the strict form; float outputs judged by idempotence only.", "3/C03"),
     "C04": ("property-based testing (Hypothesis) with hostile values; oracle = exception class + deterministic line-event budget (sys.monitoring) + body-entered flag",
             "hypothesis",
             "Exploration: hostile Python values against generated constrained/logical types through field, parameter, return and "
